@@ -138,13 +138,13 @@ type c08Target struct {
 func c08Gen(ts []c08Target) func(yield func(c08.Case) bool) {
 	return func(yield func(c08.Case) bool) {
 		for _, tg := range ts {
-			for _, f := range tg.frames {
-				if !c08.Mutations(tg.name, f, yield) {
+			if tg.magics != nil {
+				if !c08.ShortStrings(tg.name, tg.magics, yield) {
 					return
 				}
 			}
-			if tg.magics != nil {
-				if !c08.ShortStrings(tg.name, tg.magics, yield) {
+			for _, f := range tg.frames {
+				if !c08.Mutations(tg.name, f, yield) {
 					return
 				}
 			}
@@ -156,7 +156,13 @@ const c08Bound = "per codec: every frame of the alphabet x {every truncation; ev
 const c08Rule = "each input is decoded three times through XProtocol.Decode + ProtocolMatch (exact-capacity buffer, 4096 spare bytes of 0xA5, of 0x3C); distinct = distinct input bytes per target; outcome = (target, class, frame|more|error|panic). Oracle: no panic escapes (a panic the codec recovers and returns as an error is allowed); outcomes with different poison identical; TotalAlloc delta of a call <= 1MiB+32*len(input) (confirmed by the minimum of 3 re-measurements); the call returns (60s; or >300ms with >128MiB in use and growing). What a decoder returns for a corrupted frame (frame vs error vs more) is NOT compared."
 
 func c08Run(t *testing.T, part string, ts []c08Target) {
-	c08.Main(t, c08.Spec{Prop: "C08", Part: part, Budget: time.Duration(vreport.Pick(4, 20)) * time.Minute,
+	budget := time.Duration(vreport.Pick(4, 20)) * time.Minute
+	if part == "tars" {
+		// on the unfixed tree the LIST-encoded body with a large announced length costs ~15 s and 2 GiB per
+		// call; the thorough tier (all 256 values of every byte) would spend most of an hour there
+		budget = time.Duration(vreport.Pick(4, 8)) * time.Minute
+	}
+	c08.Main(t, c08.Spec{Prop: "C08", Part: part, Budget: budget,
 		Gen: c08Gen(ts), Exec: c08ExecCodec,
 		NoAlloc: func(c c08.Case) bool { return c.Class == "short" && !vreport.Thorough() },
 		Bound:   c08Bound, Rule: c08Rule})
